@@ -28,6 +28,7 @@ mod c09;
 mod indep_formats;
 mod c16;
 mod c01;
+mod c01_getters;
 
 use common::Args;
 
